@@ -1717,7 +1717,7 @@ def rule_moment_pipeline(ctx, prog, rule="R19"):
 
 # ======================================================================================= C01 interpolation layer
 
-def fn_term(prog, body, names, depth=0, pick_field=None):
+def fn_term(prog, body, names, depth=0, pick_field=None, kernel_cls=None):
     """T-term of the value a loop-free, branch-free crate function returns, private helper calls inlined
     (pick_field: the function returns a tuple aggregate and only that component is wanted)"""
     tb = prog.tracked(body)
@@ -1734,14 +1734,14 @@ def fn_term(prog, body, names, depth=0, pick_field=None):
             return names[e[1]]
         cb = local_helper(e)
         if cb is not None:
-            return fn_term(prog, cb, {i + 1: K.term(a) for i, a in enumerate(e[3])}, depth + 1)
+            return fn_term(prog, cb, {i + 1: K.term(a) for i, a in enumerate(e[3])}, depth + 1, kernel_cls=kernel_cls)
         if isinstance(e, tuple) and e[0] == "field":
             base = ds(e[1])
             cb = local_helper(base)
             if cb is not None:
-                return fn_term(prog, cb, {i + 1: K.term(a) for i, a in enumerate(base[3])}, depth + 1, pick_field=int(e[2]))
+                return fn_term(prog, cb, {i + 1: K.term(a) for i, a in enumerate(base[3])}, depth + 1, pick_field=int(e[2]), kernel_cls=kernel_cls)
         return None
-    K = Kernel(prog, tb, leaf)
+    K = (kernel_cls or Kernel)(prog, tb, leaf)
     r = tb.return_expr()
     if pick_field is not None:
         rr = ds(r)
